@@ -286,8 +286,34 @@ MHist(mode, ctx, steps, i, reg, ed, acc) ==
 Verdict_mh(ev) == MHist(ev.mode, ev.ctx, ev.steps, 1, [i \in 1..Len(ev.init) |-> [ev.init[i] EXCEPT !.cs = ev.init[i].cs]],
                         [err |-> FALSE, flags |-> {}], {})
 
+\* ---------------- family "call": totality of every entry point (C04) ----------------
+\* No spec action consumes a panic or a timeout.  In domain X (ev.slow) single operations legitimately take
+\* many seconds: a timeout there is inconclusive and accepted (DESIGN C04).
+Verdict_call(ev) ==
+  Names(<< <<"panic", ev.panic = "" \/ (ev.slow /\ ev.panic = "timeout") \/ ev.panic = "skipped-after-timeouts">>,
+           <<"wf",    ev.has => (ev.res.f \in {FIN, INF, SNAN, QNAN} /\ ev.res.cs >= 0 /\ IsNat(ev.res.c))>> >>)
+
+\* ---------------- family "conc": goroutines sharing a Context and operands (C18) ----------------
+\* Every concurrent outcome must equal the outcome of the same call run alone (which is itself judged as
+\* an ordinary "a" event); shared operands, Contexts and the package state must be unchanged afterwards;
+\* a race-detector report is an event no action admits.
+SameAOut(a, b) == a.panic = b.panic /\ SameRepr(a.res, b.res) /\ a.res.cs = b.res.cs /\ a.fl = b.fl /\ a.err = b.err /\ a.cnt = b.cnt
+Verdict_conc(ev) ==
+  Names(<< <<"same-as-alone", \A i \in 1..Len(ev.conc) : SameAOut(ev.conc[i], ev.seq)>>,
+           <<"readonly-same", \A i \in 1..Len(ev.roc) : ev.roc[i] = ev.ro>>,
+           <<"ctx-unchanged", \A i \in 1..Len(ev.conc) : ev.conc[i].ctxa = ev.ctx>> >>)
+Verdict_concsnap(ev) ==
+  Names(<< <<"shared-operands-unchanged", \A i \in 1..Len(ev.before) : SameRepr(ev.before[i], ev.after[i]) /\ ev.before[i].cs = ev.after[i].cs>>,
+           <<"shared-contexts-unchanged", ev.ctxa = ev.ctxb>>,
+           <<"shared-state", ev.shb = ev.sha>> >>)
+
 Verdict(ev) ==
   CASE ev.k = "a" -> Verdict_a(ev)
+    [] ev.k = "conc" -> Verdict_conc(ev)
+    [] ev.k = "concsnap" -> Verdict_concsnap(ev)
+    [] ev.k = "race" -> {"data-race"}
+    [] ev.k = "call" -> Verdict_call(ev)
+    [] ev.k = "api" -> {}
     [] ev.k = "mh" -> Verdict_mh(ev)
     [] ev.k = "sh" -> Names(<< <<"shared-state", ev.before = ev.after>> >>)
     [] ev.k = "bh" -> Verdict_bh(ev)
